@@ -21,7 +21,7 @@ from fractions import Fraction
 import numpy as np
 from common import *
 
-IMPORTS = ("From CV Require Import Base.Cmp Base.QcLin Model.C12_Model.\n"
+IMPORTS = ("From CV Require Import Base.Cmp Base.QcLin Model.C12_Model Model.C12_Args Model.C12_Jac Model.C12_Pde.\n"
            "From Coq Require Import QArith Qcanon String. Open Scope string_scope.")
 RULE = ("model kinds {Model+jacobian, Model+gradient, Model without gradient, LinearModel(matrix), LinearModel(callables), "
         "PDEModel with gradient_wrt_parameter / jacobian_wrt_parameter / both / neither} x domain/range geometries "
@@ -328,8 +328,12 @@ class Geo:
         if k == "image" and d.get("defaults"):
             return G.Image2D((d["r"], d["c"]))
         if k == "kl":
-            return G.KLExpansion(np.linspace(0.0, 1.0, d["nodes"]), decay_rate=float(Fraction(d["decay"])),
-                                 normalizer=float(Fraction(d["normalizer"])), num_modes=d["modes"])
+            g = G.KLExpansion(np.linspace(0.0, 1.0, d["nodes"]), decay_rate=float(Fraction(d["decay"])),
+                              normalizer=float(Fraction(d["normalizer"])), num_modes=d["modes"])
+            if d.get("grad"):      # a user's gradient for the LINEAR expansion par2fun p = K p: K^T direction, K from the documented formula
+                Kf = np.array([[float(x) for x in row] for row in self.kl_mats()[0]])
+                g.gradient = _fn(("klgrad", key), lambda: (lambda direction, wrt: Kf.T @ np.asarray(direction)))
+            return g
         if k == "mapped_over":
             mp = _fn(("map", fkey), lambda: (lambda x: horner(cs, x)))
             imp = _fn(("imap", fkey), lambda: (lambda x: horner(ics, x))) if ics is not None else None
@@ -367,7 +371,8 @@ class Geo:
         d, k = self.d, self.kind
         if k == "kl":
             K, Mi = self.kl_mats()
-            return "(mkGeo KStep %s %s (CvLin %s %s) None F2Base None %s)" % (cnat(self.pdim), cnat(self.nfun), qm(K), qm(Mi), cnat(3))
+            grad = "(Some (GGMatT %s %s))" % (cnat(self.pdim), qm(K)) if d.get("grad") else "None"
+            return "(mkGeo KStep %s %s (CvLin %s %s) None F2Base %s %s)" % (cnat(self.pdim), cnat(self.nfun), qm(K), qm(Mi), grad, cnat(3))
         if k == "mapped_over":
             # par2fun = map o inner.par2fun, fun2par = inner.fun2par o imap; hasattr(wrapper, "gradient") is False
             inn = self.inner
@@ -414,7 +419,7 @@ class Geo:
     def name(self):
         d = self.d
         if self.kind == "kl":
-            return "kl%d/%d" % (d["modes"], d["nodes"])
+            return "kl%d/%d%s" % (d["modes"], d["nodes"], "+grad" if d.get("grad") else "")
         if self.kind == "mapped_over":
             return "mapped(%s)%s" % (self.inner.name(), "+imap" if d.get("ics") is not None else "-noimap")
         s = self.kind
@@ -635,8 +640,23 @@ def _build_model_core(cuqi, meta, dg_obj, rg_obj):
             P.jacobian_wrt_parameter = lambda self, wrt: 2 * jac(wrt)
         # PDE_form(x) = (Aop, Aop (A phi(x) + b)) with a unit triangular integer operator Aop (entries -1/0/1: LU with partial
         # pivoting and the substitutions are exact), so that observe(solve(assemble(x))) = A phi(x) + b exactly
-        Aop = np.array(meta["pde_op"], dtype=float) if meta.get("pde_op") else np.eye(m)
-        pde = P(lambda x: (Aop.copy(), Aop @ (A @ horner(cs, x.ravel()) + b)))
+        # round 3: the operator may depend on the parameter (off-diagonal entries of a unit triangular T times x[(i+j) mod n]), and
+        # an observation_map u -> C u may follow; then the solution is A0 phi(x) + b0 and meta A = C A0, b = C b0
+        A0 = np.array([[float(Fraction(a)) for a in row] for row in meta["pde_A0"]]) if meta.get("pde_A0") else A
+        b0 = np.array(fl(ufs(meta["pde_b0"]))) if meta.get("pde_b0") else b
+        Cm = np.array([[float(Fraction(a)) for a in row] for row in meta["pde_C"]]) if meta.get("pde_C") else None
+        Aop = np.array(meta["pde_op"], dtype=float) if meta.get("pde_op") else np.eye(len(A0))
+
+        def pde_form(x):
+            xr = np.asarray(x, dtype=float).ravel()
+            op = Aop.copy()
+            if meta.get("pde_xdep"):
+                for i in range(len(op)):
+                    for j in range(len(op)):
+                        if i != j:
+                            op[i, j] = Aop[i, j] * xr[(i + j) % len(xr)]
+            return op, op @ (A0 @ horner(cs, xr) + b0)
+        pde = P(pde_form, observation_map=(lambda u: Cm @ u) if Cm is not None else None)
         if meta.get("pde_inst"):          # attached to the PDE object instead of its class (hasattr sees both)
             for nm in ("gradient_wrt_parameter", "jacobian_wrt_parameter"):
                 if nm in P.__dict__:
@@ -647,6 +667,15 @@ def _build_model_core(cuqi, meta, dg_obj, rg_obj):
     raise ValueError(kind)
 
 
+def pde_parts(meta):
+    """(A0, b0, T) of a PDE case as Fractions: solution = A0 phi(x) + b0, operator T (identity unless pde_op is given)"""
+    A0 = [[Fraction(a) for a in row] for row in (meta.get("pde_A0") or meta["A"])]
+    b0 = ufs(meta.get("pde_b0") or meta["b"])
+    m = len(A0)
+    T = [[Fraction(a) for a in row] for row in meta["pde_op"]] if meta.get("pde_op") else [[F(int(i == j)) for j in range(m)] for i in range(m)]
+    return A0, b0, T
+
+
 def coq_model(meta):
     A = [[Fraction(a) for a in row] for row in meta["A"]]
     cs, b = ufs(meta["cs"]), ufs(meta["b"])
@@ -655,6 +684,12 @@ def coq_model(meta):
     kind = meta["mk"]
     keeps = "false" if kind.startswith("pde") else "true"
     fwd = "(mkFwd (poly_forward %s %s %s) %s)" % (qm(A), qv(cs), qv(b), keeps)
+    if kind.startswith("pde"):
+        # PDEModel._forward_func inside the model: assemble / solve (checked Gauss-Jordan) / observe
+        A0, b0, T = pde_parts(meta)
+        obs = "(Some (qmatvec %s))" % qm([[Fraction(a) for a in row] for row in meta["pde_C"]]) if meta.get("pde_C") else "None"
+        fwd = "(pde_fwd (mkPde (pde_case_form %s %s %s %s %s) %s) (model_solve %s))" % (
+            cbool(bool(meta.get("pde_xdep"))), qm(T), qm(A0), qv(cs), qv(b0), obs, cnat(len(T)))
     dgs = Geo(**meta["dg"])
     shaped = cbool(dgs.twod)
     msel = GSTYLES[meta.get("mstyle", "wrtfirst")]
@@ -987,6 +1022,8 @@ def tol_cell(meta):
     if "kl" in (meta["dg"].get("kind"), meta["rg"].get("kind")):
         return True
     op = meta.get("pde_op")
+    if meta.get("pde_xdep") and meta["mk"].startswith("pde"):
+        return True          # parameter-dependent operators: scipy's pivoted LU divides by non-unit pivots
     if op and meta["mk"].startswith("pde"):
         m = len(op)
         upper = all(op[i][j] == 0 for i in range(m) for j in range(i))
@@ -1096,6 +1133,20 @@ def forward_case(cuqi, meta, q):
                                                       cbool(meta["flag"]), coq_obs(obs), cbool(okflag))
     if obs[0] == "val" and len(obs) > 4 and not (obs[4].startswith("float") or obs[4] == "object"):
         expr += " && false"        # DECISION: the output dtype is floating
+    if meta["mk"].startswith("pde"):
+        # hypothesis of C12_pde_solver_is_exact for every operator this case assembles: the model's elimination found a
+        # two-sided inverse (checked by multiplication)
+        _, _, T = pde_parts(meta)
+        xs = []
+        if meta.get("pde_xdep"):
+            in_is_fun = meta["form"].split("=")[0] in ("fun", "arrfun", "subfun", "samplesfun")
+            for col in vals:
+                try:
+                    xs.append(list(col) if in_is_fun else dgs.o_par2fun(col))
+                except Refuse:
+                    pass
+            xs = [x for x in xs if len(x) == len(meta["A"][0])]
+        expr += " && pde_ops_ok %s %s %s %s" % (cnat(len(T)), cbool(bool(meta.get("pde_xdep"))), qm(T), clist([qv(x) for x in xs]))
     fail = compare(obs, exp)
     obs_s = obs
     if len(exp) > 3 and obs[0] == "val" and exp[0] == "val" and _same(obs[2], exp[2], exp[3]):
@@ -1174,7 +1225,7 @@ def run_gradient_case(cuqi, meta):
             yk = rgs.o_fun2par(o_F(A, cs, b, dgs.o_par2fun(pk)))
             grad.append(sum((dpar_vec[i] * yk[i].b for i in range(len(yk))), F(0)))
         ekind = 1 if dbase in ("arrpar", "arrfun") else 0
-        exp = ("val", ekind, [grad])
+        exp = ("val", ekind, [grad]) + ((F(1, 10 ** 9),) if tol_cell(meta) else ())
     except Refuse as e:
         if refusal_ok is None:
             refusal_ok = "conversion unavailable: " + str(e)
@@ -1195,6 +1246,8 @@ def compare_gradient(obs, exp, refusal_ok):
     # through numpy arithmetic), but a CUQIarray where an ndarray was expected is not counted as a violation.
     if obs[1] not in (0, 1) or (exp[1] == 1 and obs[1] != 1):
         return "wrapper kind %s, expected %s" % (obs[1], exp[1])
+    if len(exp) > 3 and _same(obs[2], exp[2], exp[3]):      # tolerance cell class (KLExpansion): 1e-9 relative
+        obs = obs[:2] + (exp[2],) + obs[3:]
     if obs[2] != exp[2]:
         return "gradient %s differs from J^T d = %s (exact Jacobian of the parameter-to-output map)" % (_show(obs), _show(exp))
     if not obs[3]:
@@ -1202,6 +1255,22 @@ def compare_gradient(obs, exp, refusal_ok):
     if len(obs) > 4 and not obs[4].startswith("float") and obs[4] != "object":
         return "gradient dtype %s: must be floating" % obs[4]
     return None
+
+
+def chain_instance(meta):
+    """gradient cells that are instances of C12_gradient_chain_rule: plain parameter vectors for direction and wrt, a model kind of
+    the family with a gradient, a plain 1-d range geometry, and a domain geometry for which the model computes the Jacobian of
+    par2fun (geo_jac): identity-type (not Image2D order F), element-wise with gradient, StepExpansion / KLExpansion with gradient"""
+    dgs, rgs = Geo(**meta["dg"]), Geo(**meta["rg"])
+    if meta["dform"] != "par" or meta["wform"] != "par" or "dpar" in meta or "wpar" in meta or meta.get("dipk") or meta.get("wipk"):
+        return False
+    if meta["mk"] in ("nograd", "pde_none") or rgs.kind not in ("default1d", "cont1d", "discrete"):
+        return False
+    if dgs.kind in ("default1d", "cont1d", "discrete"):
+        return True
+    if dgs.kind in ("image", "default2d", "cont2d"):
+        return bool(dgs.d.get("visual")) or dgs.d.get("order", "C") == "C"
+    return dgs.has_grad and dgs.kind in ("mapped", "sub1d", "user", "step", "kl")
 
 
 def gradient_case(cuqi, meta, q):
@@ -1217,8 +1286,13 @@ def gradient_case(cuqi, meta, q):
     if meta.get("wipk"):
         win = "(GiArrOdd %s %s %s)" % (dgs.coq(), cbool(meta["wform"].split("=")[0] == "arrpar"), qv(w))
     okflag = obs[3] if obs[0] == "val" else True
-    expr = "check_gradient %s %s %s %s %s %s %s %s %s %s" % (coq_quirks(q), gf, rgs.coq(), dgs.coq(), din, win,
-                                                            cbool(dpar), cbool(wpar), coq_obs(obs), cbool(okflag))
+    expr = "%s %s %s %s %s %s %s %s %s %s %s" % ("check_gradient_tol" if tol_cell(meta) else "check_gradient", coq_quirks(q), gf, rgs.coq(), dgs.coq(), din, win,
+                                                cbool(dpar), cbool(wpar), coq_obs(obs), cbool(okflag))
+    if chain_instance(meta) and obs[0] == "val":
+        # the right-hand side of C12_gradient_chain_rule, (J_F(par2fun w) geo_jac(w))^T d, evaluated for THIS instance (this also
+        # shows the theorem's hypotheses hold for it: geo_jac = Some _) and compared with the implementation's gradient
+        A_ = [[Fraction(a) for a in row] for row in meta["A"]]
+        expr += " && check_chain_rule %s %s %s %s %s %s %s" % (cbool(tol_cell(meta)), qm(A_), qv(ufs(meta["cs"])), dgs.coq(), qv(d), qv(w), cqvec(obs[2][0]))
     if dgs.kind == "step" and dgs.has_grad:     # hypothesis of C12_gradient_chain_step for the index family actually used
         expr += " && step_wf %s %s" % (cnat(dgs.d["nodes"]), cnatll(dgs.step_idx()))
     if meta.get("refusal_only"):      # Samples flagged as function values: only "refused" is compared, not the exception class
@@ -1356,6 +1430,167 @@ def bind_case(cuqi, meta, q):
                 kind="DECISION", impl_fail=fail, signature=sig)
 
 
+# ---------------- get_non_default_args for every parameter kind; the call func(x) ----------------
+PKINDS = {"po": "KPosOnly", "pk": "KPosOrKw", "vp": "KVarPos", "ko": "KKwOnly", "vk": "KVarKw"}
+_DEFAULT = object()          # the default value of every defaulted parameter of the generated callables
+
+
+def sig_text(sig):
+    """Python source of a parameter list; sig = [[name, kind, has_default], ...] in declaration order"""
+    parts, n_po = [], sum(1 for _, k, _ in sig if k == "po")
+    has_vp = any(k == "vp" for _, k, _ in sig)
+    star_done = False
+    for i, (name, kind, dflt) in enumerate(sig):
+        if kind == "ko" and not has_vp and not star_done:
+            parts.append("*")
+            star_done = True
+        parts.append({"vp": "*", "vk": "**"}.get(kind, "") + name + ("=_DEFAULT" if dflt else ""))
+        if kind == "po" and i + 1 == n_po:
+            parts.append("/")
+    return ", ".join(parts)
+
+
+def o_required(sig):
+    """the property, stated on the declaration: the inputs of a callable are its parameters that are neither variadic nor defaulted"""
+    return [name for name, kind, dflt in sig if kind in ("po", "pk", "ko") and not dflt]
+
+
+def o_receiver(sig):
+    """which parameter the single positional argument of func(x) lands in (Python's calling convention), or None when the
+    call is a TypeError: the first parameter that takes positional arguments, else *args; nothing else may be required"""
+    pos = [s for s in sig if s[1] in ("po", "pk")]
+    recv = pos[0] if pos else next((s for s in sig if s[1] == "vp"), None)
+    if recv is None or any(n != recv[0] for n in o_required(sig)):
+        return None
+    return recv
+
+
+def intended_input(sig):
+    """the parameter the user's code reads the model input from"""
+    req = o_required(sig)
+    if req:
+        return next(s for s in sig if s[0] == req[0])
+    return next((s for s in sig if s[1] in ("po", "pk")), None) or next((s for s in sig if s[1] == "vp"), None)
+
+
+def make_callable(sig, A, style="def"):
+    """a forward callable with the given parameter list: returns A @ (its input) and raises AssertionError unless every
+    other parameter is at its default / empty"""
+    inp = intended_input(sig)
+    lines = []
+    for name, kind, dflt in sig:
+        if inp is not None and name == inp[0]:
+            continue
+        if kind == "vp":
+            lines.append("    assert %s == (), 'positional extras received'" % name)
+        elif kind == "vk":
+            lines.append("    assert %s == {}, 'keyword extras received'" % name)
+        elif dflt:
+            lines.append("    assert %s is _DEFAULT, 'parameter %s is not at its default'" % (name, name))
+    if inp is None:
+        lines.append("    return _A @ _np.zeros(_A.shape[1])")
+    elif inp[1] == "vp":
+        lines.append("    assert len(%s) == 1\n    return _A @ _np.asarray(%s[0])" % (inp[0], inp[0]))
+    else:
+        lines.append("    assert %s is not _DEFAULT\n    return _A @ _np.asarray(%s)" % (inp[0], inp[0]))
+    ns = {"_A": A, "_np": np, "_DEFAULT": _DEFAULT}
+    if style == "method":
+        src = "class H:\n    def f(self, %s):\n%s\nf = H().f\n" % (sig_text(sig), "\n".join("    " + ln.replace("\n", "\n    ") for ln in lines))
+    elif style == "lambda" and inp is not None and inp[1] != "vp":
+        src = "f = lambda %s: _A @ _np.asarray(%s)\n" % (sig_text(sig), inp[0])
+    else:
+        src = "def f(%s):\n%s\n" % (sig_text(sig), "\n".join(lines))
+    exec(src, ns)
+    return ns["f"]
+
+
+def _args_byname():
+    """state of the tree: get_non_default_args recognises *args / **kwargs by their NAMES (before /repo 074a70c)"""
+    if "byname" not in _PROBE:
+        from cuqi.utilities import get_non_default_args
+        _PROBE["byname"] = get_non_default_args(lambda args: 0) == []
+    return _PROBE["byname"]
+
+
+def coq_sig(sig):
+    return clist(["(mkParam %s %s %s)" % (cstr(n), PKINDS[k], cbool(bool(d))) for n, k, d in sig])
+
+
+def args_case(cuqi, meta, q):
+    """meta: op=args, sig, style, cached (None | list of names set as f._non_default_args), npos, kws, A, p, mk (Model | LinearModel)"""
+    from cuqi.model import Model, LinearModel
+    sig = [list(s) for s in meta["sig"]]
+    A = np.array([[float(Fraction(a)) for a in row] for row in meta["A"]])
+    p = ufs(meta["p"])
+    f = make_callable(sig, A, meta.get("style", "def"))
+    if meta.get("cached") is not None:
+        f._non_default_args = list(meta["cached"])
+    model = LinearModel(f, lambda y: A.T @ y, len(A), len(A[0])) if meta.get("mk") == "linfun" else Model(f, len(A), len(A[0]))
+    names = list(model._non_default_args)
+    x = np.array([float(t) for t in p])
+    try:
+        y = model.forward(*([x] * meta["npos"]), **{k: x for k in meta["kws"]})
+        accepted, how = True, [frac(float(v)) for v in np.asarray(y).ravel()]
+    except AssertionError as e:
+        accepted, how = False, "mis-bound: %s" % (e,)
+    except Exception as e:
+        accepted, how = False, type(e).__name__
+    # ---- the property on the declaration (no inspect, no cuqi)
+    declared = list(meta["cached"]) if meta.get("cached") is not None else o_required(sig)
+    recv = o_receiver(sig)
+    want_accept = len(declared) == 1 and recv is not None and (
+        (meta["npos"] == 1 and not meta["kws"]) or (meta["npos"] == 0 and meta["kws"] == [declared[0]]))
+    want = [sum((Fraction(a) * t for a, t in zip(row, p)), F(0)) for row in meta["A"]]
+    fail = None
+    if names != declared:
+        fail = "the model reports the inputs %s, the forward callable `def f(%s)` declares %s" % (names, sig_text(sig), declared)
+    elif isinstance(how, str) and how.startswith("mis-bound"):
+        fail = "forward handed the input to the wrong parameter of `def f(%s)`: %s" % (sig_text(sig), how)
+    elif accepted != want_accept:
+        fail = "forward(%d positional, keywords %s) on `def f(%s)`: %s" % (meta["npos"], meta["kws"], sig_text(sig),
+                                                                          "accepted" if accepted else "refused (%s)" % how)
+    elif accepted and how != want:
+        fail = "forward returned %s, expected A p = %s" % ([float(v) for v in how], [float(v) for v in want])
+    cached = "None" if meta.get("cached") is None else "(Some %s)" % clist([cstr(a) for a in meta["cached"]])
+    expr = "check_args %s (mkCallable %s %s) %s %s %s %s" % (cbool(_args_byname()), cached, coq_sig(sig), clist([cstr(a) for a in names]),
+                                                         cnat(meta["npos"]), clist([cstr(k) for k in meta["kws"]]), cbool(accepted))
+    if accepted and how != want:
+        expr += " && false"
+    pattern = ",".join(k + ("=" if d else "") for _, k, d in sig) or "none"
+    sig_ = ""
+    if fail:
+        by_name_class = any(n in ("args", "kwargs") and k not in ("vp", "vk") for n, k, _ in sig) or \
+            any(n not in ("args", "kwargs") and k in ("vp", "vk") for n, k, _ in sig)
+        sig_ = SIG_ARGNAME if (names != declared and by_name_class and _args_byname()) else "get_non_default_args|kinds=%s" % pattern
+    return Case(expr=expr, meta=meta, cell="args/sig=%s%s%s/npos=%d,kws=%d" % (pattern, "/" + meta["style"] if meta.get("style", "def") != "def" else "",
+                                                                             "/cached" if meta.get("cached") is not None else "", meta["npos"], len(meta["kws"])),
+                kind="DECISION", impl_fail=fail, signature=sig_)
+
+
+def rand_signatures(rng):
+    """one valid Python parameter list for every combination of parameter kinds present (positional-only 0/1, positional-or-
+    keyword 0/1/2, *args, keyword-only 0/1, **kwargs) with a random placement of the defaults; the variadics and the
+    ordinary parameters draw their names from one pool that contains `args` and `kwargs`"""
+    out = []
+    for n_po, n_pk, vp, n_ko, vk in itertools.product([0, 1], [0, 1, 2], [0, 1], [0, 1], [0, 1]):
+        names = ["x", "a", "y", "scale", "args", "kwargs", "rest", "options"]
+        rng.shuffle(names)
+        npos = n_po + n_pk
+        for nreq in sorted({rng.randint(0, npos), min(1, npos)}):
+            nm = iter(names)
+            sig = []
+            for i in range(npos):
+                sig.append([next(nm), "po" if i < n_po else "pk", i >= nreq])
+            if vp:
+                sig.append([next(nm), "vp", False])
+            for _ in range(n_ko):
+                sig.append([next(nm), "ko", rng.random() < 0.6])
+            if vk:
+                sig.append([next(nm), "vk", False])
+            out.append(sig)
+    return out
+
+
 # ------------------------------------------------------------------------------------------------
 # signatures
 # ------------------------------------------------------------------------------------------------
@@ -1464,6 +1699,9 @@ def classify(meta, detail):
         return "Model.forward(distribution)|%s" % m["mk"]
     if op == "bind":
         return "Model._parse_args_add_to_kwargs|npos=%d,kws=%d" % (m["npos"], len(m["kws"]))
+    if op == "args":
+        import cuqi
+        return args_case(cuqi, m, None).signature or "get_non_default_args"
     return "C12"
 
 
@@ -2186,6 +2424,111 @@ def run(ctx):
                     add(bind_case, dict(op="bind", mk=mk, dg=dg.d, rg=rg.d, npos=npos, kws=kws, renamed=None, two_args=True,
                                         p=fs(rand_vec(rng, dg.pdim)), **mm))
 
+    # ---------------- get_non_default_args for every parameter kind; the call func(x) (round 3) ----------------
+    ctx.note("tree state: get_non_default_args recognises *args/**kwargs by name = %s" % _args_byname())
+    fixed_sigs = [[["args", "pk", False]], [["kwargs", "pk", False]], [["x", "pk", False], ["rest", "vp", False], ["options", "vk", False]],
+                  [["x", "ko", False]], [["a", "pk", True], ["x", "ko", False]], [["args", "vp", False], ["x", "ko", False]],
+                  [["x", "po", False]], [["x", "po", False], ["y", "pk", True]], [["a", "po", False], ["x", "pk", False]],
+                  [["x", "pk", True]], [], [["rest", "vp", False]], [["kw", "vk", False]],
+                  [["x", "pk", False], ["args", "vp", False], ["k", "ko", True], ["kwargs", "vk", False]]]
+    for si, sig in enumerate(fixed_sigs + rand_signatures(rng)):
+        A = [[str(rng.randint(-2, 2)) for _ in range(3)] for _ in range(2)]
+        req = o_required(sig)
+        kwname = req[0] if req else (sig[0][0] if sig else "x")
+        style = ["def", "def", "method", "lambda"][si % 4]
+        for npos, kws in [(1, []), (0, [kwname]), (0, ["zz"])] + ([(2, []), (1, [kwname])] if si % 5 == 0 else []):
+            add(args_case, dict(op="args", sig=sig, style=style, cached=None, npos=npos, kws=kws, A=A, p=fs(rand_vec(rng, 3)),
+                                mk=["model", "linfun"][si % 2]))
+    # a callable that carries `_non_default_args` (what a cuqi Model / Distribution used as a callable has): trusted as it is
+    for sig, cached in [([["x", "pk", False]], ["q"]), ([["u", "pk", False], ["v", "pk", True]], ["theta"]), ([["rest", "vp", False]], ["z"]),
+                        ([["x", "pk", False]], ["a", "b"]), ([["x", "ko", False]], ["x"]), ([["x", "pk", False], ["y", "pk", False]], ["x"])]:
+        A = [[str(rng.randint(-2, 2)) for _ in range(3)] for _ in range(2)]
+        for npos, kws in [(1, []), (0, [cached[0]]), (0, [sig[0][0]])]:
+            add(args_case, dict(op="args", sig=sig, style="def", cached=cached, npos=npos, kws=kws, A=A, p=fs(rand_vec(rng, 3)), mk="model"))
+
+    # ---------------- instances of C12_gradient_chain_rule: every geometry kind with a model-computed Jacobian x every model
+    # kind with a gradient, plain vectors (the theorem's form) and array forms for the new linear-expansion gradient (round 3)
+    for n in [3, 4]:
+        a_, b_ = rng.choice([2, -2, 4, -1]), rng.randint(-3, 3)
+        aff, iaff = [b_, a_], [F(-b_, a_), F(1, a_)]
+        quad = [rng.randint(-2, 2), rng.randint(-2, 2), rng.choice([1, -1, 2])]
+        inst = [Geo(kind="default1d", n=n), Geo(kind="cont1d", n=n), Geo(kind="cont1d", n=n, grad=True), Geo(kind="discrete", n=n),
+                Geo(kind="image", r=1, c=n, visual=True),
+                Geo(kind="mapped", n=n, cs=fs(aff), ics=fs(iaff), grad=True), Geo(kind="mapped", n=n, cs=fs(quad), grad=True, gstyle="dirfirst"),
+                Geo(kind="mapped", n=n, cs=fs([0, 0, 1]), grad=True, gstyle="strip"),
+                Geo(kind="sub1d", n=n, cs=fs(quad), ics=None, grad=True), Geo(kind="user", n=n, cs=fs(aff), ics=fs(iaff), grad=True),
+                Geo(kind="step", nodes=n, steps=max(1, n // 2), proj="max", grad=True), Geo(kind="step", nodes=n, steps=n, proj="mean", grad=True),
+                Geo(kind="step", nodes=n, steps=1, proj="min", grad=True),
+                Geo(kind="kl", nodes=n, modes=n, decay="2", normalizer="1", grad=True),
+                Geo(kind="kl", nodes=n, modes=max(1, n - 2), decay="3/2", normalizer="4", grad=True)]
+        if n == 4:
+            inst += [Geo(kind="image", r=2, c=2, order="C"), Geo(kind="default2d", r=2, c=2), Geo(kind="cont2d", r=2, c=2)]
+        for gi, dg in enumerate(inst):
+            if not all(dg.step_idx()) if dg.kind == "step" else False:
+                continue
+            for mi, mk in enumerate(["jac", "dir", "linmat", "linfun", "pde_gw", "pde_jw", "pde_both"]):
+                m_out = rng.choice([2, 3])
+                rg = [Geo(kind="default1d", n=m_out), Geo(kind="cont1d", n=m_out), Geo(kind="discrete", n=m_out)][(gi + mi) % 3]
+                if not model_allowed(mk, dg, rg, forward=False):
+                    continue
+                mm = rand_model(rng, mk, dg.nfun, m_out)
+                meta = dict(op="gradient", mk=mk, dg=dg.d, rg=rg.d, dform="par", wform="par", d=fs(rand_vec(rng, m_out)), w=fs(rand_vec(rng, dg.pdim)), **mm)
+                if mk == "dir":
+                    meta["mstyle"] = ["wrtfirst", "dirfirst", "strip"][gi % 3]
+                add(gradient_case, meta)
+            if dg.kind == "kl":
+                for dform, wform in [("arrpar", "arrpar"), ("par", "arrfun"), ("arrfun=copy", "par"), ("fun", "fun"), ("par", "arrpar=copy"), ("samples", "par")]:
+                    mk = rng.choice(["jac", "dir", "linfun", "pde_gw"])
+                    mm = rand_model(rng, mk, dg.nfun, 2)
+                    w = rand_vec(rng, dg.pdim, halves=False)
+                    wv = dg.o_par2fun(w) if wform.split("=")[0] in ("fun", "arrfun") else w
+                    add(gradient_case, dict(op="gradient", mk=mk, dg=dg.d, rg=Geo(kind="cont1d", n=2).d, dform=dform, wform=wform,
+                                            d=fs(rand_vec(rng, 2)), w=fs(wv), **mm))
+                for form in ["par", "arrpar", "arrfun=copy", "samples"]:        # and the forward map through the same object
+                    mk = rng.choice(["jac", "linfun"])
+                    mm = rand_model(rng, mk, dg.nfun, 2)
+                    isfun = form.split("=")[0] in ("fun", "arrfun")
+                    cols = [rand_vec(rng, dg.pdim, halves=False) for _ in range(2 if form == "samples" else 1)]
+                    add(forward_case, dict(op="forward", mk=mk, dg=dg.d, rg=Geo(kind="cont1d", n=2).d, form=form,
+                                           vals=[fs(dg.o_par2fun(c) if isfun else c) for c in cols], flag=not isfun, call=False, **mm))
+
+    # ---------------- PDEModel inside the model: assemble / solve / observe (round 3) ----------------
+    # operator: identity, unit triangular, row-permuted + scaled (tolerance class), parameter dependent (tolerance class);
+    # with and without an observation_map; every input form; the PDE object is re-used across the columns of a Samples input
+    def matmul_f(X, Y):
+        return [[sum((X[i][k] * Y[k][j] for k in range(len(Y))), F(0)) for j in range(len(Y[0]))] for i in range(len(X))]
+    pde_doms = [Geo(kind="cont1d", n=3), Geo(kind="mapped", n=3, cs=fs([1, 2]), ics=fs([F(-1, 2), F(1, 2)])), Geo(kind="mapped", n=3, cs=fs([0, 0, 1])),
+                Geo(kind="step", nodes=4, steps=2, proj="max"), Geo(kind="image", r=2, c=2, order="F"), Geo(kind="kl", nodes=4, modes=3, decay="2", normalizer="1")]
+    for di, dg in enumerate(pde_doms):
+        for vi, variant in enumerate(["id", "tri", "perm", "xdep", "obs", "xdep+obs"]):
+            mk = ["pde_gw", "pde_jw", "pde_both", "pde_none"][(di + vi) % 4]
+            m = rng.choice([2, 3])                         # size of the PDE solution
+            nout = m if "obs" not in variant else rng.choice([2, 3])
+            rg = [Geo(kind="cont1d", n=nout), Geo(kind="discrete", n=nout), Geo(kind="mapped", n=nout, cs=fs([1, 2]), ics=fs([F(-1, 2), F(1, 2)])),
+                  Geo(kind="step", nodes=nout, steps=nout, proj="max")][(di + 2 * vi) % 4]
+            mm = rand_model(rng, mk, dg.nfun, m)
+            extra = {}
+            if variant in ("tri", "xdep", "xdep+obs"):
+                extra["pde_op"] = rand_unit_triangular(rng, m)
+            if variant == "perm":
+                extra["pde_op"] = rand_operator(rng, m)
+            if variant.startswith("xdep"):
+                extra["pde_xdep"] = True
+            if "obs" in variant:
+                C = [[F(rng.randint(-2, 2)) for _ in range(m)] for _ in range(nout)]
+                A0 = [[Fraction(a) for a in row] for row in mm["A"]]
+                b0 = ufs(mm["b"])
+                extra.update(pde_A0=mm["A"], pde_b0=mm["b"], pde_C=[fs(r_) for r_ in C])
+                mm = dict(mm, A=[fs(r_) for r_ in matmul_f(C, A0)], b=fs([sum((C[i][k] * b0[k] for k in range(m)), F(0)) for i in range(nout)]))
+            for form in fwd_forms:
+                base = form.split("=")[0]
+                cols = []
+                for _ in range(rng.randint(2, 3) if base.startswith("samples") else 1):
+                    p = rand_vec(rng, dg.pdim, halves=dg.kind != "kl")
+                    cols.append(dg.o_par2fun(p) if base in ("fun", "arrfun", "samplesfun", "subfun") else p)
+                flag = base not in ("fun", "samplesfun")
+                add(forward_case, dict(op="forward", mk=mk, dg=dg.d, rg=rg.d, form=form, vals=[fs(c) for c in cols], flag=flag, call=False, **mm, **extra))
+
     return Result(cases=cases, rule=RULE,
                   extra={"tree_state": {"default1d_eq_accepts_subclasses": q[0], "samples_flag_ignored": q[1],
                                         "discrete_eq_indexerror": q[2], "cuqiarray_subclass_not_rewrapped": q[3],
@@ -2215,6 +2558,8 @@ def oracle(ctx, meta):
         return rename_case(cuqi, m, probe(cuqi)).impl_fail
     if m.get("op") == "bind":
         return bind_case(cuqi, m, probe(cuqi)).impl_fail
+    if m.get("op") == "args":
+        return args_case(cuqi, m, None).impl_fail
     return None
 
 
@@ -2248,14 +2593,18 @@ W_SUBCLS = dict(op="forward", mk="jac", dg=dict(kind="cont1d", n=3), rg=dict(kin
 W_ISID = dict(op="forward", mk="jac", dg=dict(kind="mapped", n=3, cs=["1", "2"], ics=["-1/2", "1/2"]), rg=dict(kind="cont1d", n=3),
               form="arrpar", ipk="npbool", vals=[["1", "2", "3"]], flag=True, call=False,
               A=[[("1" if i == j else "0") for j in range(3)] for i in range(3)], cs=["0", "1"], b=["0"] * 3)
-WITNESSES = {SIG_ISID: W_ISID, SIG_SUBCLS: W_SUBCLS, SIG_EQIDX: W_EQIDX, SIG_EQKEY: W_EQKEY, SIG_DEFEQ: W_DEFEQ, SIG_SAMPLES: W_SAMPLES, SIG_0D: W_0D, SIG_TAGLEAK: W_TAGLEAK}
+W_ARGNAME = dict(op="args", sig=[["args", "pk", False]], style="lambda", cached=None, npos=1, kws=[],
+                 A=[["1", "2", "0"], ["0", "1", "3"]], p=["1", "2", "3"], mk="model")
+WITNESSES = {SIG_ARGNAME: W_ARGNAME, SIG_ISID: W_ISID, SIG_SUBCLS: W_SUBCLS, SIG_EQIDX: W_EQIDX, SIG_EQKEY: W_EQKEY, SIG_DEFEQ: W_DEFEQ, SIG_SAMPLES: W_SAMPLES, SIG_0D: W_0D, SIG_TAGLEAK: W_TAGLEAK}
 
 
 def known_witnesses(ctx):
     import cuqi
     out = {}
     for sig, w in WITNESSES.items():
-        if w["op"] == "forward":
+        if w["op"] == "args":
+            d = args_case(cuqi, w, None).impl_fail
+        elif w["op"] == "forward":
             obs, exp, _ = run_forward_case(cuqi, w)
             d = compare(obs, exp)
         else:
@@ -2290,6 +2639,10 @@ def replay(ctx, meta):
         print("verdict        :", c.impl_fail or "holds")
     elif m.get("op") == "bind":
         c = bind_case(cuqi, m, q)
+        print("verdict        :", c.impl_fail or "holds")
+    elif m.get("op") == "args":
+        c = args_case(cuqi, m, q)
+        print("declaration    : def f(%s)" % sig_text(m["sig"]), "| cached _non_default_args:", m.get("cached"))
         print("verdict        :", c.impl_fail or "holds")
     else:
         print("nothing to replay")
